@@ -64,11 +64,13 @@ async def episode(loop: vloop.VirtualLoop, ctx, pid: str, trial: int) -> None:
             air.inject(f" I --- {CTL} {p[-6]} --:------ 2309 003 {p[-1]}", delay=0.03)
 
     air.add_listener(responder)
-    gwy = await harness.start_port_gateway(loop, air, GWY_ID, config={"disable_discovery": True})
+    # gateway QoS mode: default (wait_for_reply honoured for a few codes only) or enabled (honoured as asked)
+    qos_mode = rng.choice((None, False, False))
+    gwy = await harness.start_port_gateway(loop, air, GWY_ID, config={"disable_discovery": True, **({} if qos_mode is None else {"disable_qos": qos_mode})})
     if rng.random() < 0.4:  # a controller's sync cycle is being tracked (sync avoidance is live)
         air.inject(f" I --- {CTL} --:------ {CTL} 1F09 003 FF{rng.choice((5, 50, 1855)):04X}", faultable=False)
     await asyncio.sleep(0.3)
-    meta = {"seed": ctx.seed, "trial": trial, "p_echo_lost": script.p_echo, "p_reply_lost": script.p_rply, "delay": script.delay}
+    meta = {"seed": ctx.seed, "trial": trial, "disable_qos": qos_mode, "p_echo_lost": script.p_echo, "p_reply_lost": script.p_rply, "delay": script.delay}
     history: list[dict[str, Any]] = []
     n_unhandled = len(loop.unhandled)
 
@@ -197,7 +199,9 @@ async def episode_mqtt(loop: vloop.VirtualLoop, ctx, pid: str, trial: int) -> No
     pubs: list[tuple[float, str]] = []
     with mqtt_patched():
         n0 = len(FakeMqttClient.instances)
-        gwy = Gateway("mqtt://u:p@127.0.0.1:1883", config={"disable_discovery": True})
+        qos_mode = rng.choice((None, False, False))
+        meta["disable_qos"] = qos_mode
+        gwy = Gateway("mqtt://u:p@127.0.0.1:1883", config={"disable_discovery": True, **({} if qos_mode is None else {"disable_qos": qos_mode})})
 
         def online() -> None:
             if len(FakeMqttClient.instances) > n0:
